@@ -47,17 +47,29 @@ type RecTape struct {
 	prio     map[int]uint64
 	lowNext  uint64
 	changeIn int
+	// Lazy mode: a goroutine that becomes runnable for the first time is passed over for a random number of
+	// decisions (as long as somebody else can run). Goroutines started one after the other then often begin
+	// in another order than they were started in, and a starter regularly gets far ahead of what it started -
+	// the uniform policy lets a new goroutine run almost at once, PCT fixes one order for the whole run.
+	Lazy    bool
+	lazyMax int
+	hold    map[int]int
 }
 
 func NewRandomTape(seed uint64) *RecTape {
 	r := NewRng(seed)
 	ps := []int{20, 60, 150, 300, 600, 1024}
 	t := &RecTape{rng: r, PSwitch1024: ps[r.Intn(len(ps))]}
-	if r.Intn(2) == 1 {
+	switch r.Intn(8) {
+	case 0, 1, 2, 3:
 		t.PCT = true
 		t.prio = map[int]uint64{}
 		t.lowNext = 1 << 20
 		t.changeIn = 1 + r.Intn(200)
+	case 4:
+		t.Lazy = true
+		t.hold = map[int]int{}
+		t.lazyMax = []int{6, 20, 60, 200}[r.Intn(4)]
 	}
 	return t
 }
@@ -94,6 +106,36 @@ func (t *RecTape) Choose(kind string, n int) int {
 // is still runnable). Replay uses the recorded index; random mode uses the run's policy.
 func (t *RecTape) ChooseSched(ids []int, lastRunnable bool) int {
 	n := len(ids)
+	if t.pos >= len(t.Prefix) && !t.Strict && t.rng != nil && t.Lazy {
+		var eligible []int
+		for i, id := range ids {
+			h, seen := t.hold[id]
+			if !seen {
+				h = t.rng.Intn(t.lazyMax + 1)
+			}
+			if h > 0 {
+				t.hold[id] = h - 1
+			} else {
+				t.hold[id] = 0
+				eligible = append(eligible, i)
+			}
+		}
+		best := 0
+		switch {
+		case len(eligible) == 0:
+			best = 0
+		case len(eligible) == 1:
+			best = eligible[0]
+		default:
+			// among the eligible ones as in the biased policy: mostly the one that ran last, sometimes any
+			best = eligible[0]
+			if t.rng.Intn(1024) < t.PSwitch1024 {
+				best = eligible[t.rng.Intn(len(eligible))]
+			}
+		}
+		t.Rec = append(t.Rec, best)
+		return best
+	}
 	if t.pos < len(t.Prefix) || t.Strict || t.rng == nil || !t.PCT {
 		return t.Choose("sched", n)
 	}
